@@ -81,11 +81,11 @@ func Spec() *run.Spec {
 			"faults/good_calls_after_a_fault/spz.Read":       150,
 		},
 		Phases: []run.Phase{
-			{Name: "splat-roundtrip", Cases: func(t string) int { return n3(t, 5000, 300000) }, Run: splatRoundTrip, Batch: 250, CPUBudgetS: 20},
-			{Name: "spz-decode", Cases: func(t string) int { return n3(t, 5000, 300000) }, Run: spzDecode, Batch: 250, CPUBudgetS: 20},
-			{Name: "splatply-export", Cases: func(t string) int { return n3(t, 3000, 60000) }, Run: splatPly, Batch: 100, CPUBudgetS: 20},
+			{Name: "splat-roundtrip", Cases: func(t string) int { return n3(t, 5000, 150000) }, Run: splatRoundTrip, Batch: 250, CPUBudgetS: 20},
+			{Name: "spz-decode", Cases: func(t string) int { return n3(t, 5000, 150000) }, Run: spzDecode, Batch: 250, CPUBudgetS: 20},
+			{Name: "splatply-export", Cases: func(t string) int { return n3(t, 3000, 40000) }, Run: splatPly, Batch: 100, CPUBudgetS: 20},
 			{Name: "large", Cases: func(t string) int { return n3(t, 9, 100) }, Run: largeClouds, Batch: 1, CPUBudgetS: 120},
-			{Name: "fault-sequences", Cases: func(t string) int { return n3(t, 2000, 100000) }, Run: faultSequences, Batch: 250, CPUBudgetS: 20},
+			{Name: "fault-sequences", Cases: func(t string) int { return n3(t, 2000, 50000) }, Run: faultSequences, Batch: 250, CPUBudgetS: 20},
 		},
 	}
 }
